@@ -246,6 +246,8 @@ var Seeds13 = [][]string{
 	{"T", ";", "let", "a", "=", "1", ";", "U"},
 	{"let", "a", "=", "1", ";", "T", "|", "take", "a", ";", "let", "b", "=", "a", ";", "U", "|", "count"},
 	{"T", "|", "take", "2E3", "|", "top", "2E3", "by", "a"},
+	// a built-in directly under a negation, bare and parenthesised (one insertion after a trailing comma makes the surplus argument)
+	{"T", "|", "where", "not", "(", "not", "(", "a", ",", ")", ")", "and", "not", "(", "(", "not", "(", "b", ",", ")", ")", ")", "|", "project", "b", "=", "not", "(", "isnull", "(", "a", ",", ")", ")"},
 }
 
 // H_C13seed checks "fails exactly when" on seed programs with n arbitrary corruptions.
